@@ -373,14 +373,19 @@ class Inotify:
 
                 event_list.append(inotify_event)
 
+                if (
+                    self.is_recursive
+                    and inotify_event.is_directory
+                    and inotify_event.is_moved_to
+                    and inotify_event.src_path not in self._wd_for_path
+                ):
+                    # The directory was moved in from outside the watched tree, or renamed before
+                    # it could be watched: nothing was re-keyed above, so watch the whole sub-tree
+                    # now (the emitter generates the events for its contents).
+                    with contextlib.suppress(OSError):
+                        self._add_dir_watch(inotify_event.src_path, self._event_mask, recursive=True)
+
                 if self.is_recursive and inotify_event.is_directory and inotify_event.is_create:
-                    # TODO: When a directory from another part of the
-                    # filesystem is moved into a watched directory, this
-                    # will not generate events for the directory tree.
-                    # We need to coalesce IN_MOVED_TO events and those
-                    # IN_MOVED_TO events which don't pair up with
-                    # IN_MOVED_FROM events should be marked IN_CREATE
-                    # instead relative to this directory.
                     try:
                         self._add_watch(src_path, self._event_mask)
                     except OSError:
